@@ -10,6 +10,10 @@ The framing half of the independent implementation is `Zlib/Inflate.lean`
 (RFC 1950/1951) and `Zlib/Stored.lean`; it is tied by execution (see the tie).
 -/
 import Proofs.ImplV2Lists
+import Proofs.ImplV1Lists
+import Proofs.ImplV1Beat
+import Proofs.InflateStored
+import Proofs.PrimGen
 
 namespace EngineModel.Properties.C02
 open EngineModel EngineModel.Codec EngineModel.V2 EngineModel.Impl.V2
@@ -29,8 +33,10 @@ theorem C02_v2_track_decode_agrees (bs : Bytes) : decodeTrack bs = ofSpec (track
   rw [decodeTrack_eq, liftDec_eq_ofSpec]
 theorem C02_v2_beat_decode_agrees (bs : Bytes) : decodeBeat bs = ofSpec (beat.dec bs) := by
   rw [decodeBeat_eq, liftDec_eq_ofSpec]
-theorem C02_v2_ovw_decode_agrees (bs : Bytes) : decodeOvw bs = ofSpec (ovw.dec bs) := by
-  rw [decodeOvw_eq, liftDec_eq_ofSpec]
+/-- `hlen`: the payload is a C++ byte vector (fewer than 2^63 bytes, `vector::max_size()`); needed because the
+length test `3 * (n + 1)` is `int64_t` arithmetic in the Model (`ub signed_overflow` beyond the range). -/
+theorem C02_v2_ovw_decode_agrees (bs : Bytes) (hlen : bs.length < maxCount) : decodeOvw bs = ofSpec (ovw.dec bs) := by
+  rw [decodeOvw_eq bs hlen, liftDec_eq_ofSpec]
 theorem C02_v2_cues_decode_agrees (bs : Bytes) : decodeCues bs = ofSpec (cues.dec bs) := by
   rw [decodeCues_eq, liftDec_eq_ofSpec]
 theorem C02_v2_loops_decode_agrees (bs : Bytes) : decodeLoops bs = ofSpec (loops.dec bs) := by
@@ -81,5 +87,214 @@ start (LE double), end (LE double), two flags, ARGB. -/
 example : loops.enc [⟨[0x41], 0x3ff0000000000000, 0x4000000000000000, 1, 0, ⟨255, 1, 2, 3⟩⟩] =
     [1, 0, 0, 0, 0, 0, 0, 0,  1, 0x41,  0, 0, 0, 0, 0, 0, 0xf0, 0x3f,  0, 0, 0, 0, 0, 0, 0, 0x40,  1, 0,  255, 1, 2, 3] := by
   decide
+
+/-! ## schema 1.x: the six codecs of performance_data_format.cpp against the Spec of Format/V1.lean -/
+section V1
+open EngineModel.V1Proofs
+
+theorem ofOpt_eq_ofSpec {α} (o : Option α) : ofOpt o = ofSpec o := by cases o <;> rfl
+
+/-! ### decoders -/
+
+theorem C02_v1_track_decode_agrees (bs : Bytes) : Impl.V1.decodeTrack bs = ofSpec (V1.decodeTrack bs) := by
+  rw [V1Proofs.decodeTrack_eq, ofOpt_eq_ofSpec]
+theorem C02_v1_ovw_decode_agrees (bs : Bytes) (hlen : bs.length < maxCount) :
+    Impl.V1.decodeOvw bs = ofSpec (V1.decodeOvw bs) := by
+  rw [V1Proofs.decodeOvw_eq bs hlen, ofOpt_eq_ofSpec]
+theorem C02_v1_hires_decode_agrees (bs : Bytes) (hlen : bs.length < maxCount) :
+    Impl.V1.decodeHires bs = ofSpec (V1.decodeHires bs) := by
+  rw [V1Proofs.decodeHires_eq bs hlen, ofOpt_eq_ofSpec]
+theorem C02_v1_cues_decode_agrees (bs : Bytes) : Impl.V1.decodeCues bs = ofSpec (V1.decodeCues bs) := by
+  rw [V1Proofs.decodeCues_eq, ofOpt_eq_ofSpec]
+theorem C02_v1_loops_decode_agrees (bs : Bytes) : Impl.V1.decodeLoops bs = ofSpec (V1.decodeLoops bs) := by
+  rw [V1Proofs.decodeLoops_eq, ofOpt_eq_ofSpec]
+
+/- Full statement for beat data (FALSE of the code, see the counterexample below):
+     ∀ bs, Impl.V1.decodeBeat bs = ofSpec (V1.decodeBeat bs)
+   `beat_data::decode` wraps the two grids in `try … catch (invalid_argument)`: a payload with a
+   well-formed first grid followed by fewer than 8 zero bytes (second count missing) is accepted as
+   "no grids".  `missingSecondGrid` (decidable) is exactly that family. -/
+
+/-- Everything the Spec accepts, the library decodes to the same value (no restriction). -/
+theorem C02_v1_beat_decode_agrees_of_spec (bs : Bytes) (v : Impl.V1.Beat) (h : V1.decodeBeat bs = some v) :
+    Impl.V1.decodeBeat bs = .ok v := decodeBeat_of_spec bs v h
+
+/-- Outside the `missingSecondGrid` family the Model decoder is the Spec decoder. -/
+theorem C02_v1_beat_decode_agrees_partial (bs : Bytes) (h : missingSecondGrid bs = false) :
+    Impl.V1.decodeBeat bs = ofSpec (V1.decodeBeat bs) := by
+  rw [decodeBeat_eq bs h, ofOpt_eq_ofSpec]
+
+/-- non-vacuity: a payload the library itself writes (no grids, no trailer) is outside the family -/
+example : missingSecondGrid (List.replicate 16 0 ++ [1] ++ List.replicate 16 0) = false := by decide
+
+/-- The 73-byte witness: header, one grid of two markers, nothing else. -/
+def beatMissingSecondGrid : Bytes :=
+  [0,0,0,0,0,0,0,0, 0,0,0,0,0,0,0,0, 1,  0,0,0,0,0,0,0,2,
+   0,0,0,0,0,0,0,0, 0,0,0,0,0,0,0,0, 4,0,0,0, 0,0,0,0,
+   0,0,0,0,0,0,0x59,0x40, 4,0,0,0,0,0,0,0, 0,0,0,0, 0,0,0,0]
+
+theorem C02_v1_beat_decode_agrees_counterexample :
+    Impl.V1.decodeBeat beatMissingSecondGrid = .ok ⟨none, none, [], []⟩ ∧
+    V1.decodeBeat beatMissingSecondGrid = none := by
+  decide
+
+/-! ### encoders: the Model writes exactly the Spec's bytes, or rejects exactly when the Spec does -/
+
+theorem agree_of {r : Res Bytes} {o : Option Bytes}
+    (h : (∃ b0, o = some b0 ∧ r = .ok b0) ∨ (o = none ∧ ∃ e, r = .throw e)) (b : Bytes) :
+    r = .ok b ↔ o = some b := by
+  rcases h with ⟨b0, ho, hr⟩ | ⟨ho, e, hr⟩
+  · rw [ho, hr]; constructor
+    · intro h; injection h with h; rw [h]
+    · intro h; injection h with h; rw [h]
+  · rw [ho, hr]; constructor
+    · intro h; cases h
+    · intro h; cases h
+
+theorem C02_v1_track_encode_agrees (v : Impl.V1.Track) (b : Bytes) :
+    Impl.V1.encodeTrack v = .ok b ↔ V1.encodeTrack v = some b :=
+  agree_of (Or.inl ⟨_, rfl, encodeTrack_ok v⟩) b
+
+theorem C02_v1_ovw_encode_agrees (v : Impl.V1.Wave) (b : Bytes) :
+    Impl.V1.encodeOvw v = .ok b ↔ V1.encodeOvw v = some b :=
+  agree_of (Or.inl (encodeOvw_ok v)) b
+
+theorem C02_v1_hires_encode_agrees (v : Impl.V1.Wave) (b : Bytes) :
+    Impl.V1.encodeHires v = .ok b ↔ V1.encodeHires v = some b :=
+  agree_of (Or.inl (encodeHires_ok v)) b
+
+theorem C02_v1_loops_encode_agrees (v : Impl.V1.Loops) (b : Bytes) :
+    Impl.V1.encodeLoops v = .ok b ↔ V1.encodeLoops v = some b := by
+  apply agree_of
+  cases h : v.all V1.loopSlotOk with
+  | true => exact Or.inl ⟨_, by simp [V1.encodeLoops, h], encodeLoops_ok v h⟩
+  | false => exact Or.inr ⟨by simp [V1.encodeLoops, h], encodeLoops_reject v h⟩
+
+theorem C02_v1_cues_encode_agrees (v : Impl.V1.Cues) (b : Bytes) :
+    Impl.V1.encodeCues v = .ok b ↔ V1.encodeCues v = some b := by
+  apply agree_of
+  by_cases h : v.cues.length = 8 ∧ v.cues.all V1.cueSlotOk = true
+  · exact Or.inl ⟨_, by simp only [V1.encodeCues, h, and_self, if_true]; rfl, encodeCues_ok v h.1 h.2⟩
+  · exact Or.inr ⟨by simp only [V1.encodeCues, h, if_false], encodeCues_reject v h⟩
+
+theorem C02_v1_beat_encode_agrees (v : Impl.V1.Beat) (b : Bytes) :
+    Impl.V1.encodeBeat v = .ok b ↔ V1.encodeBeat v = some b := by
+  apply agree_of
+  by_cases h : V1.gridOk v.dflt = true ∧ V1.gridOk v.adj = true
+  · exact Or.inl ⟨_, by simp only [V1.encodeBeat, h.1, h.2, Bool.and_self, if_true]; rfl, encodeBeat_ok v h.1 h.2⟩
+  · refine Or.inr ⟨?_, _, encodeBeat_reject v h⟩
+    have : (V1.gridOk v.dflt && V1.gridOk v.adj) = false := by
+      cases h1 : V1.gridOk v.dflt <;> cases h2 : V1.gridOk v.adj <;> simp_all
+    simp [V1.encodeBeat, this]
+
+/-- A pinned 1.x layout: track data is sample rate (BE double), sample count (BE int64),
+average loudness (BE double), key (BE int32); an absent field is zero. -/
+example : V1.encodeTrack ⟨some 0x40e5888000000000, some 0x0102030405060708, none, some 7⟩ =
+    some [0x40, 0xe5, 0x88, 0x80, 0, 0, 0, 0,  1, 2, 3, 4, 5, 6, 7, 8,  0, 0, 0, 0, 0, 0, 0, 0,  0, 0, 0, 7] := by
+  decide
+
+end V1
+
+/-! ## the framing half of the independent implementation
+
+`Zlib/Inflate.lean` (RFC 1950/1951 decoder) inverts `Zlib/Stored.lean` (stored-block encoder) on
+every byte list — multi-block above 65535 bytes, Adler-32 included — and whatever follows the
+stream is returned untouched.  So every blob the tie hands to the real library in direction 2
+(`Spec.encode` + `Stored.frame`) is, provably, a well-formed zlib stream of exactly that payload
+according to the independent decoder. -/
+
+theorem C02_inflate_stored (x r : Bytes) : Zlib.inflate (Zlib.deflateStored x ++ r) = some (x, r) :=
+  Zlib.inflate_deflateStored x r
+
+/-- With the 4-byte big-endian length prefix (payloads below 4 GiB: the prefix is 32 bits). -/
+theorem C02_unframe_frame (x : Bytes) (h : x.length < 4294967296) : Zlib.unframe (Zlib.frame x) = some x :=
+  Zlib.unframe_frame x h
+
+example : ([1, 2, 3] : Bytes).length < 4294967296 := by decide
+
+/-! ## the primitive layer, regenerated from encode_decode_utils.hpp
+
+Every layout above bottoms out in the primitive codecs `Codec.u8/u32le/u32be/u64le/u64be`
+(`Format/Codec.lean`) over the byte arithmetic of `Basic/Prim.lean`.  `tools/tr_prim.py` regenerates
+`Gen/PrimGen.lean` from clang's typed AST of `encode_decode_utils.hpp` on every run (shifts, masks, ORs,
+casts, `ptr[k]`, the order of the two 32-bit halves, `memcpy` between `int64_t` and `double`); these
+theorems are re-checked against the regenerated definitions: the C++ primitives *are* the Spec's
+primitives.  A decoder is a function of the bytes from `ptr` to the end of the buffer; `none` is an
+access outside the buffer (the callers check the length first), which is exactly where the primitive
+codec has no value. -/
+section PrimGen
+open EngineModel.Gen.Prim EngineModel.PrimGenProofs
+
+theorem C02_prim_uint8 :
+    (∀ a r, decode_uint8 (a :: r) = some (a, r)) ∧ decode_uint8 [] = none ∧ (∀ v, encode_uint8 v = [v]) :=
+  ⟨decode_uint8_cons, rfl, fun _ => rfl⟩
+
+theorem C02_prim_int32_be :
+    (∀ x, encode_int32_be x = Prim.encU32BE x) ∧
+    (∀ a b c d r, decode_int32_be (a :: b :: c :: d :: r) = some (Prim.decU32BE a b c d, r)) ∧
+    (∀ bs, bs.length < 4 → decode_int32_be bs = none) :=
+  ⟨encode_int32_be_eq, decode_int32_be_cons, decode_int32_be_short⟩
+
+theorem C02_prim_int32_le :
+    (∀ x, encode_int32_le x = Prim.encU32LE x) ∧
+    (∀ a b c d r, decode_int32_le (a :: b :: c :: d :: r) = some (Prim.decU32LE a b c d, r)) ∧
+    (∀ bs, bs.length < 4 → decode_int32_le bs = none) :=
+  ⟨encode_int32_le_eq, decode_int32_le_cons, decode_int32_le_short⟩
+
+theorem C02_prim_int64_be :
+    (∀ x, encode_int64_be x = Prim.encU64BE x) ∧
+    (∀ a b c d e f g h r, decode_int64_be (a :: b :: c :: d :: e :: f :: g :: h :: r) =
+      some (Prim.decU64BE a b c d e f g h, r)) ∧
+    (∀ bs, decode_int64_be bs = u64be.dec bs) :=
+  ⟨encode_int64_be_eq, decode_int64_be_cons, decode_int64_be_eq⟩
+
+theorem C02_prim_int64_le :
+    (∀ x, encode_int64_le x = Prim.encU64LE x) ∧
+    (∀ a b c d e f g h r, decode_int64_le (a :: b :: c :: d :: e :: f :: g :: h :: r) =
+      some (Prim.decU64LE a b c d e f g h, r)) ∧
+    (∀ bs, decode_int64_le bs = u64le.dec bs) :=
+  ⟨encode_int64_le_eq, decode_int64_le_cons, decode_int64_le_eq⟩
+
+/-- A double travels as its 64 bits (`memcpy` to/from `int64_t`). -/
+theorem C02_prim_double :
+    (∀ x, encode_double_be x = Prim.encU64BE x) ∧ (∀ bs, decode_double_be bs = u64be.dec bs) ∧
+    (∀ x, encode_double_le x = Prim.encU64LE x) ∧ (∀ bs, decode_double_le bs = u64le.dec bs) :=
+  ⟨encode_double_be_eq, decode_double_be_eq, encode_double_le_eq, decode_double_le_eq⟩
+
+/-- `decode_extra` takes everything that is left, `encode_extra` stores it verbatim. -/
+theorem C02_prim_extra :
+    (∀ bs, decode_extra bs = some (bs, [])) ∧ (∀ extra, encode_extra extra = extra) :=
+  ⟨decode_extra_eq, encode_extra_eq⟩
+
+/-- The encoder/decoder pairs regenerated from the header are the Spec's primitive codecs. -/
+theorem C02_prim_gen_agrees :
+    (⟨encode_uint8, decode_uint8⟩ : Codec UInt8) = u8 ∧
+    (⟨encode_int32_le, decode_int32_le⟩ : Codec UInt32) = u32le ∧
+    (⟨encode_int32_be, decode_int32_be⟩ : Codec UInt32) = u32be ∧
+    (⟨encode_int64_le, decode_int64_le⟩ : Codec UInt64) = u64le ∧
+    (⟨encode_int64_be, decode_int64_be⟩ : Codec UInt64) = u64be ∧
+    (⟨encode_double_le, decode_double_le⟩ : Codec UInt64) = u64le ∧
+    (⟨encode_double_be, decode_double_be⟩ : Codec UInt64) = u64be := by
+  have mk : ∀ {α} (e : α → Bytes) (d : Bytes → Option (α × Bytes)) (c : Codec α),
+      (∀ x, e x = c.enc x) → (∀ bs, d bs = c.dec bs) → (⟨e, d⟩ : Codec α) = c := by
+    intro α e d c h1 h2
+    cases c
+    congr
+    · exact funext h1
+    · exact funext h2
+  exact ⟨mk _ _ _ encode_uint8_eq decode_uint8_eq,
+    mk _ _ _ encode_int32_le_eq decode_int32_le_eq, mk _ _ _ encode_int32_be_eq decode_int32_be_eq,
+    mk _ _ _ encode_int64_le_eq decode_int64_le_eq, mk _ _ _ encode_int64_be_eq decode_int64_be_eq,
+    mk _ _ _ encode_double_le_eq decode_double_le_eq, mk _ _ _ encode_double_be_eq decode_double_be_eq⟩
+
+/-- Pinned values (negative 32- and 64-bit patterns: the `>>` of the C++ is an arithmetic shift). -/
+example : encode_int32_be 0x81020384 = [0x81, 2, 3, 0x84] ∧ encode_int32_le 0x81020384 = [0x84, 3, 2, 0x81] ∧
+    decode_int32_le [0x84, 3, 2, 0x81, 9] = some (0x81020384, [9]) ∧
+    encode_int64_le 0x8102030405060788 = [0x88, 7, 6, 5, 4, 3, 2, 0x81] ∧
+    decode_int64_be [0x81, 2, 3, 4, 5, 6, 7, 0x88] = some (0x8102030405060788, []) ∧
+    decode_int64_be [1, 2, 3, 4, 5, 6, 7] = none := by
+  decide
+
+end PrimGen
 
 end EngineModel.Properties.C02
